@@ -430,10 +430,11 @@ class Evolver:
                 return None
             gone = syms.pop(rng.randrange(len(syms)))
             r = rng.random()
-            if e.get("default") == gone or ("default" not in e and r < 0.5):
+            had = "default" in e
+            if had and r < 0.5:
+                del e["default"]          # the WRITER's enum keeps its default, the reader's has none
+            elif e.get("default") == gone or (not had and r < 0.5):
                 e["default"] = rng.choice(syms)
-            elif "default" in e and r < 0.3:
-                del e["default"]
             if st.field is not None and "default" in st.field:
                 if not st.direct:
                     del st.field["default"]
@@ -668,6 +669,31 @@ def add_writer_aliases(raw, rng, pf=0.35, pt=0.25):
                     if "aliases" not in f and rng.random() < pf:
                         f["aliases"] = ["wa_" + f["name"]] + (["wb_" + f["name"]] if rng.random() < 0.2 else [])
                         n += 1
+                    walk(f["type"])
+            elif t == "array":
+                walk(s["items"])
+            elif t == "map":
+                walk(s["values"])
+    walk(raw)
+    return n
+
+
+def add_writer_enum_defaults(raw, rng, p=0.6):
+    """a default on the enums of a (raw) WRITER schema that have none, in place"""
+    n = 0
+
+    def walk(s):
+        nonlocal n
+        if isinstance(s, list):
+            for b in s:
+                walk(b)
+        elif isinstance(s, dict):
+            t = s.get("type")
+            if t == "enum" and "default" not in s and rng.random() < p:
+                s["default"] = rng.choice(s["symbols"])
+                n += 1
+            if t in ("record", "error"):
+                for f in s.get("fields", []):
                     walk(f["type"])
             elif t == "array":
                 walk(s["items"])
